@@ -174,6 +174,11 @@ func runC04S(r *simkit.Run, c Cfg) {
 			pw.mn.DisconnectPeers(pw.recv.ID(), pw.send.ID())
 			pw.mn.UnlinkPeers(pw.recv.ID(), pw.send.ID())
 		}
+		// the connection is torn down on goroutines of the mock network:
+		// let that finish while the request (or the hook call) is still
+		// held, so that the order of "stream reset" and "response written"
+		// is not left to real threads
+		r.Settle()
 		return true
 	}
 	pubReads = 0
